@@ -147,27 +147,64 @@ func (C07) OnCall(e *sim.Env, c *sim.Call) {
 				}
 			}
 		}
-		missed := map[string]bool{}
-		for _, vt := range c.Entry.Begin.Votes {
-			if !vt.Signed {
-				missed[vt.Addr] = true
+		// votes run before the evidence too: replay the documented downtime rule on the pre-state signing info
+		// (a validator can be slashed for downtime, and force-unstaked, in the very block that carries its evidence)
+		if W := cp.Window; W > 0 {
+			maxMissed := W - minSigned(cp.MinSigned, W)
+			for _, vt := range c.Entry.Begin.Votes {
+				si, v := pre.Sign[vt.Addr], model[vt.Addr]
+				if si == nil {
+					continue
+				}
+				cnt := si.Missed
+				prev := pre.MissedBits[vt.Addr][si.Offset%W]
+				if !prev && !vt.Signed {
+					cnt++
+				} else if prev && vt.Signed {
+					cnt--
+				}
+				if c.H > si.Start+W && cnt > maxMissed && v != nil && !v.jailed {
+					if v.status != 0 {
+						amt := truncMul(vt.Power, cp.FracDT)
+						if amt.Cmp(v.tokens) > 0 {
+							amt = new(big.Int).Set(v.tokens)
+						}
+						v.tokens.Sub(v.tokens, amt)
+						if v.tokens.Cmp(bi(cp.Min)) < 0 {
+							v.tokens, v.status = new(big.Int), 0
+						}
+					}
+					v.jailed = true
+				}
 			}
 		}
+		ignorable := false
 		for _, ev := range c.Entry.Begin.Evidence {
 			k := evClass(model, pre, cp, ev, c.Time)
-			if k == "valid" && missed[ev.Addr] {
-				// a downtime slash earlier in this very block may have force-unstaked the offender; without a
-				// response there is no way to tell, so this death is not judged
-				k = "uncertain"
-			}
 			e.Count("c07.fatal_evidence." + k)
 			if k == "valid" {
 				valid = true
+				// (a confirmed double sign burns everything: later evidence in the block sees it unstaked)
+				model[ev.Addr].status, model[ev.Addr].tokens, model[ev.Addr].tomb = 0, new(big.Int), true
+			} else {
+				ignorable = true
 			}
 		}
 		switch {
+		case valid && ignorable:
+			// the node dies on the ignorable piece of evidence (pinned by TestHandleDoubleSign for tombstoned /
+			// unknown keys, same code path for unstaked / removed / old); the valid burn in the same block is
+			// lost with it. Counted, not judged: the death is explained by the pinned behaviour.
+			e.Count("c07.node_death_on_ignorable_evidence")
+			e.Count("c07.valid_burn_lost_to_ignorable_evidence_in_same_block")
 		case valid:
-			e.Violate("C07", "valid-double-sign-kills-node/"+cls, fmt.Sprintf("BeginBlock@%d with valid in-window double-sign evidence panicked (%s): the promised burn never commits", c.H, firstLine(c.Panic)), c)
+			detail := ""
+			for _, ev := range c.Entry.Begin.Evidence {
+				if v, ok := pre.Vals[ev.Addr]; ok {
+					detail += fmt.Sprintf(" [offender %.8s status %s jailed %v stake %v, evidence power %d age %v, max age %v, fraction %v, min %d]", ev.Addr, statusName[v.Status], v.Jailed, v.Tokens, ev.Power, c.Time.Sub(time.Unix(ev.Time, 0)), cp.MaxEvAge, cp.FracDS, cp.Min)
+				}
+			}
+			e.Violate("C07", "valid-double-sign-kills-node/"+cls, fmt.Sprintf("BeginBlock@%d with valid in-window double-sign evidence panicked (%s): the promised burn never commits%s", c.H, firstLine(c.Panic), detail), c)
 		case len(c.Entry.Begin.Evidence) == 0:
 			e.Violate("C07", "begin-panic/"+cls, fmt.Sprintf("BeginBlock@%d panicked without any evidence in the block: %s", c.H, firstLine(c.Panic)), c)
 		default:
